@@ -214,7 +214,7 @@ def run(res, tier, seed):
     try:
         info = common.check_property_file("C01")
         res.proof(info, "cd coq && make && coqc -Q . DS Properties/C01.v")
-        # the theorem's hypotheses on what the real parser emits: code_wf / spans_wf / ftab_wf of the dumped byte-code (K2 dumps)
+        # the theorem's hypotheses on what the real parser emits: code_wf / ftab_wf of the dumped byte-code (K2 dumps)
         import k2cases
         wf_inputs = []
         for c in cases[: (600 if tier == "quick" else 4000)]:
@@ -239,7 +239,7 @@ def run(res, tier, seed):
             badwf += [k0 + int(x.replace("%N", "")) for x in common.parse_coq_list(out, "bad")]
         res.cov["wf_of_real_bytecode"] = {"programs_dumped": len(terms), "not_well_formed": len(badwf)}
         if badwf:
-            broken = Broken("hypothesis of C01_run_no_panic_partial fails on byte-code the real parser emitted (code_wf / spans_wf / ftab_wf)",
+            broken = Broken("hypothesis of C01_run_no_panic_partial fails on byte-code the real parser emitted (code_wf / ftab_wf)",
                             {"first_case_terms": [terms[i][:600] for i in badwf[:2]]})
     except Broken as b:
         broken = b
